@@ -95,6 +95,8 @@ def checks_anyoneCanUpdate (c : GCtx) : Bool :=
 def checks_anyoneCanDelete (c : GCtx) : Bool :=
   (!((c.types.contains 101) && c.senderAny))
 
--- validated_in_block could not be translated: Assign(targets=[Name(id='block_ctx', ctx=Store())], value=Call(func=Attribute(value=Name(id='function', ctx=Load()), attr='transaction_context', ctx=Load()), args=[Name(id='block', ctx=Load())], keywo
+/-- translated from detectors/utils.py validated_in_block -/
+def validatedInBlock {α : Type} (chk : α → Bool) (self : α) (gtxn : Nat → α) (groupIndices : List Nat) (absolute_index : Option Nat) : Bool :=
+  (if (chk self) then true else (match absolute_index with | some absolute_index => (if (chk (gtxn absolute_index)) then true else false) | none => (groupIndices.all fun i => (chk (gtxn i)))))
 
 end Tealer.Generated
